@@ -153,6 +153,18 @@ CHECKS = {
    note=TB + "The prefix family is the registered prefixes (finite, exhaustive), not arbitrary Prefix(b, e). Float rounding of the implementation is measured "
         "(1e-11 against the exact model with an absolute reference for cancelling terms). Axioms: none.",
    tech="Rocq proof: affine form of plan application + reflective vm_compute check on the regenerated temperature graph", ref="DESIGN.md §4 C10"),
+ "C13": dict(
+   text="Theorems at term level (symbol text + integer exponent): C13_parse_print (for every well-formed unit with canonical prefix: if the printer pushed the prefix into the "
+        "first factor and every printed piece resolves to the unit it was printed from, then parsing the printed terms -- resolve, raise to the exponent, multiply left "
+        "to right -- returns exactly the original unit: same prefix, factors and dimension, hence the same interned object), C13_prefix_pushdown, C13_superscript_digit, "
+        "C13_divide_is_negative_exponent. Per run, on the symbol tables exported from the implementation: the collision sweep over EVERY prefix symbol x EVERY unit symbol "
+        "and every registered name evaluated in the kernel; kernel-checked model = implementation for Unit.resolve_symbol (whole grid + names), for the text of str(unit) "
+        "(rendered in Coq, superscripts included) and for Unit.parse(str(unit)) over every named unit x every prefix x exponents and random products; quantities and "
+        "alternative spellings evaluated on the implementation.",
+   note=TB + "The string <-> term step (lexing; juxtaposition vs explicit operators) is covered by correspondence and by C16, not by a theorem. Known finding classes: "
+        "leading magnitude, prefix without symbol, seven prefix+symbol collisions (kg is the deliberate equal mapping). Mixed-base prefixes are outside the exact model. Axioms: none.",
+   tech="Rocq proof: parse-of-print over the unit algebra (induction over the term list, uwf invariant) + reflective vm_compute sweep of the exported symbol tables + kernel-checked correspondence",
+   ref="DESIGN.md §4 C13"),
  "C14": dict(
    text="Theorems C14_add/sub/mul/div/pow: the uncertainty formulas of Measurement equal sqrt((df/dx sx)^2+(df/dy sy)^2) with the partial derivatives taken by "
         "Coquelicot's Derive, over the reals, for all measurands (zero included for + - *), all sigmas and every non-zero integer exponent; C14_pow_closed_form, "
